@@ -665,6 +665,31 @@ func bsConsumed(b *bitstream, pos0 uint64, cur0 int, len0 uint64) bool {
 	return b.pos == pos0+len0 && vcStreamOf(b.in).cur == cur0+int(len0) && b.state == bsAfter(b) && bsCleared(b)
 }
 
+// specPow10: 10^k for k <= 9.
+func specPow10(k uint8) int {
+	switch k {
+	case 0:
+		return 1
+	case 1:
+		return 10
+	case 2:
+		return 100
+	case 3:
+		return 1000
+	case 4:
+		return 10000
+	case 5:
+		return 100000
+	case 6:
+		return 1000000
+	case 7:
+		return 10000000
+	case 8:
+		return 100000000
+	}
+	return 1000000000
+}
+
 // ---------------------------------------------------------------------------
 // Type descriptors (Ion binary spec, "Typed Value Formats"). t is the descriptor octet,
 // top says whether it stands at the top level.
